@@ -84,7 +84,7 @@ class Scenario:
         self.limited = (profile == "imm" and rng.random() < 0.6)
         self.disk.capacity = self.reserved + (rng.randint(0, 14) if self.limited else 10 ** 6)
         # lease profile: the disk fills up (and empties) while shares with leases exist -- a renewal needs no space
-        self.fills = (profile == "lease" and rng.random() < 0.5)
+        self.fills = (profile in ("lease", "mut") and rng.random() < 0.5)
         self.t0 = vr.seconds()
         self.ss = StorageServer(self.dir, b"\x00" * 20, reserved_space=self.reserved,
                                 readonly_storage=self.readonly, clock=vr)
@@ -307,7 +307,7 @@ class Scenario:
 
     def op_setfree(self):
         r = self.rng
-        if self.profile == "lease":
+        if self.profile in ("lease", "mut"):
             if not self.fills:
                 return
             self.disk.capacity = self.reserved + (r.randint(0, 14) if r.random() < 0.6 else 10 ** 6)
@@ -458,7 +458,7 @@ class Scenario:
                      (self.op_setfree, 5), (self.op_addlease, 3), (self.op_renew, 3)]
         elif p == "mut":
             table = [(self.op_rtw, 50), (lambda: self.op_rtw(True), 10), (self.op_readv, 20), (self.op_advance, 4),
-                     (self.op_addlease, 5), (self.op_renew, 5), (self.op_craft_enabler, 3)]
+                     (self.op_addlease, 5), (self.op_renew, 5), (self.op_craft_enabler, 3), (self.op_setfree, 5)]
         else:
             table = [(self.op_allocate, 12), (self.op_write, 6), (self.op_close, 12), (self.op_advance, 15),
                      (self.op_addlease, 20), (self.op_renew, 20), (self.op_rtw, 15), (lambda: self.op_rtw(True), 8),
